@@ -1,0 +1,33 @@
+//go:build verif
+
+// Verification hook for C08 (add-only, compiled only with -tags verif).
+
+package codec
+
+import (
+	"fmt"
+	"reflect"
+)
+
+// VerifCanonicalKeyBytes returns the bytes that kMapCanonical's out-of-band path
+// sorts by for the key k: k encoded by a side encoder of handle h in map-key
+// context (the same call sequence as encode.go kMapCanonical, default branch).
+func VerifCanonicalKeyBytes(h Handle, k interface{}) (out []byte, err error) {
+	defer func() {
+		if r := recover(); r != nil {
+			err = fmt.Errorf("%v", r)
+		}
+	}()
+	initHandle(h)
+	bh := h.getBasicHandle()
+	var buf []byte
+	sideEncode(h, &bh.sideEncPool, func(se encoderI) {
+		se.ResetBytes(&buf)
+		se.setContainerState(containerMapKey)
+		se.encodeR(baseRVRV(reflect.ValueOf(k)))
+		se.atEndOfEncode()
+		se.writerEnd()
+	})
+	out = append([]byte(nil), buf...)
+	return
+}
